@@ -2,8 +2,8 @@
    Models: Store/Storage.v (memstore, cidlink.Memory, storage/funcs.go fall-backs),
            Store/FsStore.v (fsstore over a POSIX file-system model; sharding from Gen/FromGo.v). *)
 Require Import IP.Base.Bytes IP.Base.GoSem IP.Gen.FromGo IP.Store.Storage IP.Store.FsStore.
-Require Import IP.Proofs.StoreBase IP.Proofs.StoreMem IP.Proofs.StoreFs IP.Proofs.StoreRefuted.
-Require Import IP.Proofs.StoreCrash IP.Proofs.StoreSeq IP.Proofs.StoreGood IP.Proofs.StoreFsRefine IP.Proofs.StoreUsable.
+Require Import IP.Proofs.StoreBase IP.Proofs.StoreB32 IP.Proofs.StoreMem IP.Proofs.StoreFs IP.Proofs.StoreRefuted.
+Require Import IP.Proofs.StoreCrash IP.Proofs.StoreCrashTop IP.Proofs.StoreSeq IP.Proofs.StoreGood IP.Proofs.StoreFsRefine IP.Proofs.StoreUsable.
 From Coq Require Import List Bool.
 Import ListNotations.
 
@@ -58,7 +58,7 @@ Proof. exact fs_contained. Qed.
 Print Assumptions C17_fs_contained.
 
 Theorem C17_fs_injective : forall cfg, escaping cfg ->
-  forall k1 k2 p, k1 <> [] -> k2 <> [] ->
+  forall k1 k2 p, wfb k1 -> wfb k2 -> k1 <> [] -> k2 <> [] ->
   key_len_ok (enc_key cfg k1) -> key_len_ok (enc_key cfg k2) ->
   path_for_key cfg k1 = Some p -> path_for_key cfg k2 = Some p -> k1 = k2.
 Proof. exact fs_injective. Qed.
@@ -71,10 +71,16 @@ Theorem C17_shard_total : forall sh k, key_len_ok k ->
 Proof. exact shard_apply_spec. Qed.
 Print Assumptions C17_shard_total.
 
-(* base32 without padding (fsstore's default escaping function) has the required alphabet *)
-Theorem C17_b32_alphabet : forall s, Forall b32_alpha (b32enc s).
-Proof. exact b32enc_alpha. Qed.
-Print Assumptions C17_b32_alphabet.
+(* base32 without padding (fsstore's default escaping function) HAS the required shape: injective on
+   byte strings, output in [A-Z2-7], non-empty on non-empty input — so for the default configuration
+   the hypothesis [escaping] of the theorems above is discharged ([wfb]: every element < 256) *)
+Theorem C17_b32_shape : esc_ok b32enc.
+Proof. constructor. exact b32enc_inj. exact b32enc_alpha. exact b32enc_nonempty. Qed.
+Print Assumptions C17_b32_shape.
+
+Theorem C17_repaired_cfg_escaping : forall base sh, escaping (repaired_cfg base sh).
+Proof. intros. split. reflexivity. exact C17_b32_shape. Qed.
+Print Assumptions C17_repaired_cfg_escaping.
 
 (* --- the file-system store refines the same finite map (has / get / get-stream / peek agree,
        absent keys absent, distinct keys never alias), from the freshly initialised store, for every
@@ -84,21 +90,34 @@ Print Assumptions C17_b32_alphabet.
        2^254 bounds the model's counter-based staging names, nothing in the code. ----------------- *)
 Theorem C17_refines_fs : forall cfg,
   path_ok (f_base cfg) -> forall ops,
-  (forall k k', enc_key cfg k = enc_key cfg k' -> k = k') ->
+  (forall k k', wfb k -> wfb k' -> enc_key cfg k = enc_key cfg k' -> k = k') ->
   hist_ok (@Some (list N)) true spec_empty ops = true -> Forall (op_storable cfg) ops ->
   (N.of_nat (length ops) < 2 ^ 254)%N ->
   fs_obs cfg (fstate0 cfg) ops = spec_run (@Some (list N)) true spec_empty ops.
 Proof. exact fs_refines. Qed.
 Print Assumptions C17_refines_fs.
 
+(* ... in particular for the repaired default configuration (base32 applied, empty key refused):
+   no hypothesis about the escaping function is left *)
+Theorem C17_refines_fs_repaired : forall base sh ops,
+  path_ok base ->
+  hist_ok (@Some (list N)) true spec_empty ops = true -> Forall (op_storable (repaired_cfg base sh)) ops ->
+  (N.of_nat (length ops) < 2 ^ 254)%N ->
+  fs_obs (repaired_cfg base sh) (fstate0 (repaired_cfg base sh)) ops = spec_run (@Some (list N)) true spec_empty ops.
+Proof.
+  intros base sh ops B H S L. apply fs_refines; auto.
+  apply escaping_enc_inj. split. reflexivity. constructor. exact b32enc_inj. exact b32enc_alpha. exact b32enc_nonempty.
+Qed.
+Print Assumptions C17_refines_fs_repaired.
+
 (* with the escaping function applied, every non-empty key of at most 255 escaped bytes is storable *)
-Theorem C17_escaping_makes_keys_storable : forall cfg k, escaping cfg -> k <> [] ->
+Theorem C17_escaping_makes_keys_storable : forall cfg k, escaping cfg -> wfb k -> k <> [] ->
   key_len_ok (enc_key cfg k) -> (lenN (enc_key cfg k) <=? name_max)%N = true -> exists d, storable cfg k d.
 Proof. exact escaping_storable. Qed.
 Print Assumptions C17_escaping_makes_keys_storable.
 
 (* the pinned code (no escaping) is a faithful map exactly on keys without '/', '.', NUL *)
-Theorem C17_pinned_plain_keys_storable : forall cfg k, q_no_escape cfg = true -> plain k -> key_len_ok k ->
+Theorem C17_pinned_plain_keys_storable : forall cfg k, q_no_escape cfg = true -> wfb k -> plain k -> key_len_ok k ->
   (lenN k <=? name_max)%N = true -> exists d, storable cfg k d.
 Proof. exact plain_storable. Qed.
 Print Assumptions C17_pinned_plain_keys_storable.
@@ -106,24 +125,24 @@ Print Assumptions C17_pinned_plain_keys_storable.
 Example C17_refines_fs_hyp_satisfiable :
   let cfg := pinned_cfg wbase R12 in
   let ops := [ONew content1; OPut [107;101;121]%N 0; OMut 0 [1;2;3]%N; OGet [107;101;121]%N; OHas [107]%N] in
-  path_ok (f_base cfg) /\ (forall k k', enc_key cfg k = enc_key cfg k' -> k = k') /\
+  path_ok (f_base cfg) /\ (forall k k', wfb k -> wfb k' -> enc_key cfg k = enc_key cfg k' -> k = k') /\
   hist_ok (@Some (list N)) true spec_empty ops = true /\ Forall (op_storable cfg) ops.
 Proof.
-  assert (P : forall k, plain k -> (lenN k <=? name_max)%N = true -> key_len_ok k ->
+  assert (P : forall k, plain k -> (lenN k <=? name_max)%N = true -> key_len_ok k -> bytes_ok k = true ->
                exists d, storable (pinned_cfg wbase R12) k d).
-  { intros. apply plain_storable; auto. }
+  { intros. apply plain_storable; auto. apply wfb_bytes_ok. auto. }
   assert (PL : forall l, l <> [] -> forallb (fun b => negb (N.eqb b 47 || N.eqb b 46 || N.eqb b 0)) l = true -> plain l).
   { intros l NE H. split; auto. apply Forall_forall. intros b Hb. rewrite forallb_forall in H.
     specialize (H b Hb). apply negb_true_iff in H. apply orb_false_iff in H. destruct H as [H H3].
     apply orb_false_iff in H. destruct H as [H1 H2].
     apply N.eqb_neq in H1. apply N.eqb_neq in H2. apply N.eqb_neq in H3. repeat split; auto. }
   split. { repeat constructor. }
-  split. { intros k k' H. exact H. }
+  split. { intros k k' _ _ H. exact H. }
   split. { reflexivity. }
   repeat constructor; unfold op_storable; simpl; auto.
-  - apply P. apply PL. discriminate. reflexivity. reflexivity. unfold key_len_ok. simpl. reflexivity.
-  - apply P. apply PL. discriminate. reflexivity. reflexivity. unfold key_len_ok. simpl. reflexivity.
-  - apply P. apply PL. discriminate. reflexivity. reflexivity. unfold key_len_ok. simpl. reflexivity.
+  - apply P. apply PL. discriminate. reflexivity. reflexivity. unfold key_len_ok. simpl. reflexivity. reflexivity.
+  - apply P. apply PL. discriminate. reflexivity. reflexivity. unfold key_len_ok. simpl. reflexivity. reflexivity.
+  - apply P. apply PL. discriminate. reflexivity. reflexivity. unfold key_len_ok. simpl. reflexivity. reflexivity.
 Qed.
 
 (* --- the code AS IT STANDS (escapingFunc stored, never applied; commit("") = abort = success)
